@@ -1561,6 +1561,21 @@ dt_dtadd(struct dt_dt_s d, struct dt_dtdur_s dur)
 #endif	/* WITH_LEAP_SECONDS */
 
 	if (d.typ == DT_SEXY) {
+		switch (dur.durtyp) {
+		case DT_DURBD:
+		case DT_DURWK:
+		case DT_DURMO:
+		case DT_DURQU:
+		case DT_DURYR:
+		case DT_DURYMD:
+			/* business days, months and years need a calendar,
+			 * and a second count is an instant in UTC */
+			d = dt_dtconv((dt_dttyp_t)DT_YMD, d);
+			d = dt_dtadd(d, dur);
+			return dt_dtconv(DT_SEXY, dt_fixup(d));
+		default:
+			break;
+		}
 		d.sexy = __sexy_add(d.sexy, dur);
 		return d;
 	}
